@@ -2,7 +2,7 @@
 import re
 
 from facts import AnalysisBroken
-from model import (dstr, strip, fact_holds, mentions_field, mentions_call, mentions_var,
+from model import (ret_value_class, dstr, strip, fact_holds, mentions_field, mentions_call, mentions_var,
                    const_value, walk)
 from rules import (guarded, calls_to, field_writes, who_may_write, who_may_call, full_range,
                    loops_over, every_iteration_passes, basename, origins, is_var, is_enum,
@@ -198,6 +198,29 @@ def run(ctx):
         ctx.check('C08.N1', end == want and const_value(e['args'][1]) == 10, lrd.name, 'LineReader:search-stops-short', lrd.where(e),
                   'memchr(p, \'\\n\', n) searches up to the end of the buffered data (p + n = %s, buf_end_ = %s)' % (end, want))
     ctx.check('C08.N1', nsearch >= 2, lrd.name, 'LineReader:searches', lrd.loc, '%d newline searches in LineReader::ReadLine' % nsearch)
+    # appending starts at a line boundary: on the "file is not empty" side of OpenForWriteIfNeeded every
+    # success path looks at the last byte of the existing log, and a newline is written when it is not one
+    owf = prog.fn('BuildLog::OpenForWriteIfNeeded')
+    def last_byte_probe(x):
+        return x['k'] == 'call' and x.get('name') in ('fseek', 'fseeko', 'lseek', 'pread') and \
+            any(const_value(a) == -1 for a in (x.get('args') or []))
+    nl_writes = [x for x in owf.events('call') if x.get('name') in ('fputc', 'putc', 'fwrite', 'fputs', 'fprintf') and
+                 any(const_value(a) == 10 or (isinstance(strip(a), dict) and strip(a).get('k') == 'str' and strip(a).get('v') == '\n')
+                     for a in (x.get('args') or []))]
+    nonempty = [(bid, i, s2) for bid, b in owf.blocks.items() for i, s2 in enumerate(b['succ']) if s2 is not None and
+                any(pol is False and mentions_call(atom, 'ftell') and isinstance(strip(atom), dict) and strip(atom).get('k') == 'bin' and
+                    const_value(strip(atom)['r']) == 0 for k, pol, atom in owf.edge_facts(bid, i))]
+    okl = bool(nonempty) and bool(nl_writes)
+    for bid, i, s2 in nonempty:
+        # (the only way round the probe is a failed open of the file for reading)
+        def not_open_failure(b2, i2, s3):
+            return not any(pol is False and mentions_call(deep_resolve(owf, atom), 'fopen') for k, pol, atom in owf.edge_facts(b2, i2))
+        r = owf.find_path(None, lambda x: x['k'] == 'ret' and ret_value_class(prog, owf, x) == 'success', from_succ=s2,
+                          is_blocker=last_byte_probe, edge_ok=not_open_failure)
+        okl = okl and r is None
+    ctx.check('C08.O1', okl, owf.name, 'append:not-at-line-boundary', owf.loc,
+              'before appending to a non-empty log its last byte is examined and a missing newline is supplied '
+              '(a record is never glued to a torn line)')
     header_iff_empty(ctx, 'C08.TA1', prog.fn('BuildLog::OpenForWriteIfNeeded'),
                      lambda x: x.get('name') == 'fprintf' and mentions_var(x.get('args'), 'kFileSignature'), 'BuildLog::log_file_')
     ctx.floor('C08.TA1', 14)
